@@ -152,8 +152,9 @@ STYLE = None      # set by text() while unparsing with a Style
 class Style:
     """Layout / spelling choices that the documentation declares irrelevant."""
 
-    def __init__(self, rng, ws=False, comments=False, strenc=False, split=False):
+    def __init__(self, rng, ws=False, comments=False, strenc=False, split=False, tight=False):
         self.r, self.ws, self.comments, self.strenc, self.split = rng, ws, comments, strenc, split
+        self.tight = tight      # no blank at all where two tokens cannot run into each other
         self.used = set()
 
     def sep(self):
@@ -212,13 +213,30 @@ class Style:
         return "".join(out)
 
 
+def tight_ok(a, b):
+    """May tokens A and B be written without anything between them?  (Only pairs that stay two tokens under longest-match lexing:
+    a closing bracket or a closure suffix * / + before a digit, an opening bracket or a quote; anything before , ) ] } ; and after ( [ , {)"""
+    if not a or not b:
+        return False
+    if b in (",", ")", "]", "}", ";") and (a[-1].isalnum() or a[-1] in ')]}"_'):
+        return True
+    if a in ("(", "[", ",", "{") and (b[0].isalnum() or b[0] in '([{"_'):
+        return True
+    if a in (")", "]", "}", "*", "+") and (b[0].isdigit() or b[0] in '([{"'):
+        return True
+    return False
+
+
 def join(tokens):
     if STYLE is None:
         return " ".join(tokens)
     out = []
     for i, t in enumerate(tokens):
         if i:
-            out.append(STYLE.sep())
+            if getattr(STYLE, "tight", False) and tight_ok(tokens[i - 1], t) and STYLE.r.random() < 0.7:
+                STYLE.used.add("tight")
+            else:
+                out.append(STYLE.sep())
         out.append(t)
     return "".join(out)
 
